@@ -208,4 +208,5 @@ mod vk_copied {
         assert!(x.try_get_len() == y.try_get_len() && x.has_more() == y.has_more(), "[C13 same-len] same remaining length as the underlying iterator");
         assert!(d == copy, "[C13 source-untouched] the source elements are neither modified nor moved");
     }
+
 }
